@@ -345,6 +345,7 @@ type lsMismatch struct {
 }
 
 type lockstep struct {
+	oamLoose bool // stores into FE00-FEFF are not compared in memory (LCD on: C17's business)
 	m      *machine.Machine
 	ref    dmgref.CPU
 	cart   *dmgref.Cart
@@ -449,6 +450,7 @@ func newLockstep(sc *engine.Scenario, res *engine.Result) *lockstep {
 		return nil
 	}
 	l := &lockstep{m: m, res: res, sc: sc, dg: engine.NewDigest()}
+	l.oamLoose = sc.Class == "oam-pointer-lcd-on"
 	img, _ := cartImage(sc)
 	l.cart = dmgref.NewCart(img)
 	m.GuardUndefined = true
@@ -681,6 +683,9 @@ func (l *lockstep) finishInstr() bool {
 			continue
 		}
 		var got uint8
+		if l.oamLoose && acc.Addr >= 0xfe00 && acc.Addr <= 0xfeff {
+			continue
+		}
 		if acc.Addr >= 0xfe00 && acc.Addr < 0xfea0 {
 			o := m.PeekOAM()
 			got = o[acc.Addr-0xfe00]
@@ -869,9 +874,15 @@ func (l *lockstep) compareShadow() *lsMismatch {
 		return nil
 	}
 	for _, w := range [][2]uint16{{0xc000, 0xdfff}, {0xff80, 0xfffe}, {0x8000, 0x9fff}} {
+		if l.oamLoose && w[0] == 0x8000 {
+			continue // LCD on: video memory is not always readable
+		}
 		if mm := chk(w[0], w[1]); mm != nil {
 			return mm
 		}
+	}
+	if l.oamLoose {
+		return nil
 	}
 	o := m.PeekOAM()
 	for i := 0; i < 0xa0; i++ {
